@@ -136,7 +136,8 @@ def dyn_event(c):
             sf = StructureFactor(atoms, g_max=2 * g_max, centering=cen)
             bw = BlochWaves(sf, energy=ENERGIES[c["energy"]], sg_max=SG_MAX[c["sg_max"]], g_max=g_max, orientation_matrix=orientation(c["orientation"]),
                             use_wave_eq=bool(c["use_wave_eq"]))
-            th = [0.0, 37.0, 120.0, 455.5]
+            th = {"ascending": [0.0, 37.0, 120.0, 455.5], "descending": [455.5, 120.0, 37.0, 0.0], "unsorted": [120.0, 0.0, 455.5, 37.0],
+                  "repeated": [37.0, 0.0, 37.0, 455.5]}[c.get("order", "ascending")]
             ev["beams"] = int(len(bw))
             # reflections with a component along the beam (higher-order Laue zones on a zone axis, nearly all when tilted)
             ev["out_of_plane_beams"] = bool((np.abs(np.asarray(bw.g_vec, dtype=float)[:, 2]) > 1e-9).any())
@@ -146,7 +147,7 @@ def dyn_event(c):
             hkl = np.asarray(bw.hkl)
             i0 = int(np.where((hkl == 0).all(1))[0][0])
             direct = np.zeros(inten.shape[1]); direct[i0] = 1.0
-            ev["zero_ppb"] = ppb(float(np.abs(inten[0] - direct).max()))
+            ev["zero_ppb"] = ppb(max(float(np.abs(inten[k] - direct).max()) for k, z in enumerate(th) if z == 0.0))
             A = bw.calculate_structure_matrix(lazy=False)
             A = np.asarray(A.compute() if hasattr(A, "compute") else A)
             off = A - np.diag(np.diag(A))
@@ -154,7 +155,7 @@ def dyn_event(c):
             lz = np.asarray(bw.calculate_diffraction_patterns(th, lazy=True).compute().array, dtype=float)
             ev["lazy_ppb"] = ppb(float(np.abs(lz - inten).max())) if lz.shape == inten.shape else 2 * 10 ** 9
             worst = 0.0
-            for k, z in enumerate(th[1:3], start=1):
+            for k, z in [(k, z) for k, z in enumerate(th) if z != 0.0][:2]:
                 S = bw.calculate_scattering_matrix(z)
                 S = np.asarray(S.compute() if hasattr(S, "compute") else S)
                 worst = max(worst, float(np.abs(np.abs(S[:, i0]) ** 2 - inten[k]).max()))
